@@ -31,13 +31,31 @@ Section NegP.
       rewrite beq_refl. destruct q; try reflexivity. congruence.
   Qed.
 
-  Lemma disable_identity_In values :
-    disable_identity values = true <-> In (s_identity, QZero) values.
+  (** ** "the client forbids identity", read off the list of (coding, quality) pairs (RFC 7231 5.3.4):
+      identity — in any case — is listed with quality 0.0, or identity is not listed at all and "*" is
+      listed with quality 0.0 *)
+  Definition refuses_identity (values : list (bytes * qclass)) : Prop :=
+    (exists v, In (v, QZero) values /\ lower v = s_identity) \/
+    (In (s_star, QZero) values /\ forall v q, In (v, q) values -> lower v <> s_identity).
+
+  Lemma disable_identity_iff values :
+    disable_identity values = true <-> refuses_identity values.
   Proof.
-    unfold disable_identity. rewrite existsb_exists. split.
-    - intros [[v q] [Hin Hb]]. cbn [fst snd] in Hb. apply andb_true_iff in Hb as [Hv Hq].
-      apply beq_eq in Hv. apply q_is_zero_iff in Hq. subst. assumption.
-    - intros Hin. exists (s_identity, QZero). split; [assumption|]. cbn [fst snd]. rewrite beq_refl. reflexivity.
+    unfold disable_identity, disable_identity_gen, refuses_identity, names_identity. cbn [fx_case fx_star all_fixed andb].
+    rewrite orb_true_iff, andb_true_iff, negb_true_iff. rewrite !existsb_exists. split.
+    - intros [[[v q] [Hin Hb]]|[[[v q] [Hin Hb]] Hn]]; cbn [fst snd] in Hb; apply andb_true_iff in Hb as [Hv Hq];
+        apply beq_eq in Hv; apply q_is_zero_iff in Hq; subst q.
+      + left. exists v. auto.
+      + right. subst v. split; [assumption|].
+        intros w r Hw Hl. assert (E : existsb (fun v : bytes * qclass => beq (lower (fst v)) s_identity) values = true).
+        { apply existsb_exists. exists (w, r). split; [assumption|]. cbn [fst]. rewrite Hl. apply beq_refl. }
+        congruence.
+    - intros [[v [Hin Hl]]|[Hin Hn]].
+      + left. exists (v, QZero). split; [assumption|]. cbn [fst snd]. rewrite Hl, beq_refl. reflexivity.
+      + right. split.
+        * exists (s_star, QZero). split; [assumption|]. cbn [fst snd]. rewrite beq_refl. reflexivity.
+        * destruct (existsb _ values) eqn:E; [|reflexivity]. apply existsb_exists in E as [[w r] [Hw Hb]].
+          cbn [fst] in Hb. apply beq_eq in Hb. exfalso. exact (Hn _ _ Hw Hb).
   Qed.
 
   Lemma only_identity_spec values :
@@ -52,8 +70,7 @@ Section NegP.
   Lemma only_identity_not_disabled values :
     only_identity values = true -> disable_identity values = false.
   Proof.
-    intros H. apply only_identity_spec in H. subst values. unfold disable_identity.
-    cbn [existsb fst snd q_is_zero]. rewrite andb_false_r. reflexivity.
+    intros H. apply only_identity_spec in H. subst values. vm_compute. reflexivity.
   Qed.
 
   Lemma pick_some p cz cb cg a :
@@ -105,38 +122,40 @@ Section NegP.
     - split; auto.
   Qed.
 
-  Definition label_of (b : bytes) (ch : coding) : option bytes :=
-    match b with [] => None | _ => Some (coding_name ch) end.
+  Definition label_of (hce : option bytes) (b : bytes) (ch : coding) : option bytes :=
+    match b with [] => hce | _ => Some (coding_name ch) end.
 
-  Lemma set_compression_eq b ch : set_compression b ch = Sent (label_of b ch) b ch.
+  Lemma set_compression_eq hce b ch : set_compression hce b ch = Sent (label_of hce b ch) b ch.
   Proof. reflexivity. Qed.
+
+  Notation identity_reply c := (Sent (label_of (cr_hce c) (cr_body c) Identity) (cr_body c) Identity).
 
   (** complete case analysis of [clone_preferred] *)
   Lemma clone_cases c ae o :
     let values := values_of ae in
-    (* opt-out / floor, or only identity wanted *)
-    ((cr_compress c = false \/ only_identity values = true) /\
-     clone c ae o = (Sent (label_of (cr_body c) Identity) (cr_body c) Identity, c))
-    \/ (cr_compress c = true /\ only_identity values = false /\ choose_ c values o = Identity /\
+    (* identity: opt-out / floor, only identity wanted, or nothing else chosen; identity not refused *)
+    ((cr_compress c = false \/ only_identity values = true \/ choose_ c values o = Identity) /\
+     disable_identity values = false /\ clone c ae o = (identity_reply c, c))
+    \/ ((cr_compress c = false \/ (only_identity values = false /\ choose_ c values o = Identity)) /\
         disable_identity values = true /\ clone c ae o = (NotAcceptable, c))
-    \/ (cr_compress c = true /\ only_identity values = false /\ choose_ c values o = Identity /\
-        disable_identity values = false /\
-        clone c ae o = (Sent (label_of (cr_body c) Identity) (cr_body c) Identity, c))
     \/ (exists a, cr_compress c = true /\ only_identity values = false /\ choose_ c values o = Alg a /\
-        clone c ae o = (Sent (label_of (fst (get_alg enc a (level_of o a) c)) (Alg a))
+        clone c ae o = (Sent (label_of (cr_hce c) (fst (get_alg enc a (level_of o a) c)) (Alg a))
                              (fst (get_alg enc a (level_of o a) c)) (Alg a),
                         snd (get_alg enc a (level_of o a) c))).
   Proof.
-    intros values. unfold clone_preferred. fold values.
+    intros values. unfold clone_preferred, clone_preferred_gen. fold values. cbn [fx_floor all_fixed andb].
+    fold (disable_identity values).
     destruct (cr_compress c) eqn:Hc; cbn [negb].
-    2:{ left. split; [left; reflexivity|reflexivity]. }
+    2:{ destruct (disable_identity values) eqn:Hd.
+        - right. left. auto.
+        - left. auto. }
     destruct (only_identity values) eqn:Ho.
-    { left. split; [right; reflexivity|reflexivity]. }
+    { left. split; [auto|]. split; [apply only_identity_not_disabled; assumption|reflexivity]. }
     destruct (choose_ c values o) as [|a] eqn:Hch.
     - destruct (disable_identity values) eqn:Hd.
-      + right. left. repeat split; reflexivity.
-      + right. right. left. repeat split; reflexivity.
-    - right. right. right. exists a. destruct (get_alg enc a (level_of o a) c) as [b c'] eqn:Hg.
+      + right. left. auto.
+      + left. auto.
+    - right. right. exists a. destruct (get_alg enc a (level_of o a) c) as [b c'] eqn:Hg.
       cbn [fst snd]. repeat split; reflexivity.
   Qed.
 
@@ -153,7 +172,7 @@ Section NegP.
     exists a h q, ch = Alg a /\ ae = Some h /\ to_str_ok h = true /\
                   In (alg_name a, q) (list_header parse_q h) /\ q <> QZero.
   Proof.
-    intros H. destruct (clone_cases c ae o) as [[_ E]|[[_ [_ [_ [_ E]]]]|[[_ [_ [_ [_ E]]]]|[a [_ [_ [Hch E]]]]]]];
+    intros H. destruct (clone_cases c ae o) as [[_ [_ E]]|[[_ [_ E]]|[a [_ [_ [Hch E]]]]]];
       rewrite E in H; inversion H; subst; auto.
     right. apply choose_alg in Hch as [_ Hc]. apply contains_In in Hc as [q [Hin Hq]].
     apply header_values_some in Hin as [h [-> [Hs Hin]]]. exists a, h, q. auto.
@@ -163,40 +182,46 @@ Section NegP.
     clone c ae o = (Sent l b (Alg a), c') ->
     ~ (forall q, In (alg_name a, q) (values_of ae) -> q = QZero).
   Proof.
-    intros H Hall. destruct (clone_cases c ae o) as [[_ E]|[[_ [_ [_ [_ E]]]]|[[_ [_ [_ [_ E]]]]|[a' [_ [_ [Hch E]]]]]]];
+    intros H Hall. destruct (clone_cases c ae o) as [[_ [_ E]]|[[_ [_ E]]|[a' [_ [_ [Hch E]]]]]];
       rewrite E in H; inversion H; subst.
     apply choose_alg in Hch as [_ Hc]. apply contains_In in Hc as [q [Hin Hq]]. apply Hq, Hall, Hin.
   Qed.
 
+  (** identity is never sent to a client that forbids it — whatever the size of the body, the handler's
+      preference or the content type *)
   Theorem identity_refusal_l c ae o r c' :
-    cr_compress c = true -> In (s_identity, QZero) (values_of ae) ->
+    refuses_identity (values_of ae) ->
     clone c ae o = (r, c') -> forall l b, r <> Sent l b Identity.
   Proof.
-    intros Hc Hin H l b ->. apply disable_identity_In in Hin.
-    destruct (clone_cases c ae o) as [[[E0|E0] E]|[[_ [_ [_ [_ E]]]]|[[_ [_ [_ [Hd E]]]]|[a' [_ [_ [Hch E]]]]]]];
-      rewrite E in H; inversion H; subst; try congruence.
-    apply only_identity_not_disabled in E0. congruence.
+    intros Hin H l b ->. apply disable_identity_iff in Hin.
+    destruct (clone_cases c ae o) as [[_ [Hd E]]|[[_ [_ E]]|[a' [_ [_ [Hch E]]]]]];
+      rewrite E in H; inversion H; subst; congruence.
   Qed.
 
-  Theorem floors_l body ct compress ae o :
+  (** body under the floor or handler opted out: never a compressed body, no memo cell touched;
+      the identity body, or 406 for a client that forbids identity *)
+  Theorem floors_l body ct hce compress ae o :
     (length body < floor)%nat \/ compress = false ->
-    clone (cresp_new body ct compress) ae o =
-    (Sent (match body with [] => None | _ => Some s_identity end) body Identity, cresp_new body ct compress).
+    clone (cresp_new body ct hce compress) ae o =
+    (if disable_identity (values_of ae) then NotAcceptable
+     else Sent (match body with [] => hce | _ => Some s_identity end) body Identity,
+     cresp_new body ct hce compress).
   Proof.
-    intros H. unfold clone_preferred.
-    assert (Hc : cr_compress (cresp_new body ct compress) = false).
+    intros H. unfold clone_preferred, clone_preferred_gen.
+    assert (Hc : cr_compress (cresp_new body ct hce compress) = false).
     { unfold cresp_new. cbn [cr_compress]. destruct H as [H| ->].
       - apply Nat.ltb_lt in H. rewrite H. reflexivity.
       - destruct (Nat.ltb _ _); reflexivity. }
-    rewrite Hc. cbn [negb]. reflexivity.
+    rewrite Hc. cbn [negb fx_floor all_fixed andb]. fold (disable_identity (values_of ae)).
+    destruct (disable_identity (values_of ae)); reflexivity.
   Qed.
 
   Theorem floors_ctype_l c ae o r c' :
     compressible parse_mime c = false -> clone c ae o = (r, c') ->
-    c' = c /\ (r = NotAcceptable \/ r = Sent (label_of (cr_body c) Identity) (cr_body c) Identity).
+    c' = c /\ (r = NotAcceptable \/ r = identity_reply c).
   Proof.
     intros Hn H.
-    destruct (clone_cases c ae o) as [[_ E]|[[_ [_ [_ [_ E]]]]|[[_ [_ [_ [_ E]]]]|[a' [_ [_ [Hch E]]]]]]];
+    destruct (clone_cases c ae o) as [[_ [_ E]]|[[_ [_ E]]|[a' [_ [_ [Hch E]]]]]];
       rewrite E in H; inversion H; subst; auto.
     apply choose_alg in Hch as [Hc _]. congruence.
   Qed.
@@ -210,6 +235,8 @@ Section NegP.
   Proof. destruct a; reflexivity. Qed.
   Lemma cell_set_ctype a v c : cr_ctype (cell_set a v c) = cr_ctype c.
   Proof. destruct a; reflexivity. Qed.
+  Lemma cell_set_hce a v c : cr_hce (cell_set a v c) = cr_hce c.
+  Proof. destruct a; reflexivity. Qed.
 
   Lemma get_alg_ok a lvl c :
     cells_ok enc c ->
@@ -218,7 +245,8 @@ Section NegP.
     cr_body (snd (get_alg enc a lvl c)) = cr_body c /\
     cr_compress (snd (get_alg enc a lvl c)) = cr_compress c /\
     cr_ctype (snd (get_alg enc a lvl c)) = cr_ctype c /\
-    cell_get a (snd (get_alg enc a lvl c)) = Some (fst (get_alg enc a lvl c)).
+    cell_get a (snd (get_alg enc a lvl c)) = Some (fst (get_alg enc a lvl c)) /\
+    cr_hce (snd (get_alg enc a lvl c)) = cr_hce c.
   Proof.
     intros Hok. unfold get_alg. destruct (cell_get a c) as [b|] eqn:Hg; cbn [fst snd].
     - repeat split; auto.
@@ -227,7 +255,7 @@ Section NegP.
         destruct (alg_eqb a' a) eqn:Ea.
         * inversion H; subst. destruct a, a'; try discriminate; exists lvl; reflexivity.
         * apply Hok. assumption.
-      + rewrite cell_set_body, cell_set_compress, cell_set_ctype, cell_get_set.
+      + rewrite cell_set_body, cell_set_compress, cell_set_ctype, cell_get_set, cell_set_hce.
         destruct a; repeat split; reflexivity.
   Qed.
 
@@ -238,108 +266,285 @@ Section NegP.
 
   Theorem label_matches_body_l c ae o l b ch c' :
     cells_ok enc c -> clone c ae o = (Sent l b ch, c') ->
-    l = match b with [] => None | _ => Some (coding_name ch) end /\
+    l = match b with [] => cr_hce c | _ => Some (coding_name ch) end /\
     match ch with
     | Identity => b = cr_body c /\ c' = c
     | Alg a => (exists level, b = enc a level (cr_body c)) /\ cell_get a c' = Some b
     end /\
-    cells_ok enc c' /\ cr_body c' = cr_body c /\ cr_compress c' = cr_compress c /\ cr_ctype c' = cr_ctype c.
+    cells_ok enc c' /\ cr_body c' = cr_body c /\ cr_compress c' = cr_compress c /\ cr_ctype c' = cr_ctype c /\
+    cr_hce c' = cr_hce c.
   Proof.
     intros Hok H.
-    destruct (clone_cases c ae o) as [[_ E]|[[_ [_ [_ [_ E]]]]|[[_ [_ [_ [_ E]]]]|[a' [_ [_ [Hch E]]]]]]];
+    destruct (clone_cases c ae o) as [[_ [_ E]]|[[_ [_ E]]|[a' [_ [_ [Hch E]]]]]];
       rewrite E in H; inversion H; subst; auto.
     - repeat split; auto.
-    - repeat split; auto.
-    - destruct (get_alg_ok a' (level_of o a') c Hok) as [H1 [H2 [H3 [H4 [H5 H6]]]]].
+    - destruct (get_alg_ok a' (level_of o a') c Hok) as [H1 [H2 [H3 [H4 [H5 [H6 H7]]]]]].
       repeat split; auto.
+  Qed.
+
+  (** a content-encoding header set by the handler itself never reaches the client with a non-empty body *)
+  Theorem handler_coding_overwritten_l c ae o l b ch c' :
+    clone c ae o = (Sent l b ch, c') -> b <> [] -> l = Some (coding_name ch).
+  Proof.
+    intros H Hb.
+    destruct (clone_cases c ae o) as [[_ [_ E]]|[[_ [_ E]]|[a' [_ [_ [Hch E]]]]]];
+      rewrite E in H; [|discriminate|]; injection H as Hl Hb' Hc' _; subst l b ch; unfold label_of.
+    - destruct (cr_body c); [congruence|reflexivity].
+    - destruct (fst (get_alg enc a' (level_of o a') c)); [congruence|reflexivity].
   Qed.
 
   Lemma clone_not_acceptable_state c ae o c' : clone c ae o = (NotAcceptable, c') -> c' = c.
   Proof.
     intros H.
-    destruct (clone_cases c ae o) as [[_ E]|[[_ [_ [_ [_ E]]]]|[[_ [_ [_ [_ E]]]]|[a' [_ [_ [Hch E]]]]]]];
+    destruct (clone_cases c ae o) as [[_ [_ E]]|[[_ [_ E]]|[a' [_ [_ [Hch E]]]]]];
       rewrite E in H; inversion H; subst; reflexivity.
   Qed.
 
+  (** 406 <=> the client forbids identity and nothing else applies: the server does not compress this
+      response (under the floor / opted out / content type not compressible) or none of zstd, br, gzip is
+      listed with a non-zero quality *)
   Theorem not_acceptable_iff_l c ae o :
     fst (clone c ae o) = NotAcceptable <->
-    cr_compress c = true /\ In (s_identity, QZero) (values_of ae) /\
-    (compressible parse_mime c = false \/ forall a, contains (values_of ae) (alg_name a) = false).
+    refuses_identity (values_of ae) /\
+    (cr_compress c = false \/ compressible parse_mime c = false \/
+     forall a, contains (values_of ae) (alg_name a) = false).
   Proof.
-    rewrite <- disable_identity_In.
-    destruct (clone_cases c ae o) as [[[E0|E0] E]|[[E1 [E2 [E3 [E4 E]]]]|[[E1 [E2 [E3 [E4 E]]]]|[a' [E1 [E2 [E3 E]]]]]]];
-      rewrite E; cbn [fst]; split; try discriminate; try (intros [H1 [H2 H3]]; congruence).
-    - intros [H1 [H2 H3]]. apply only_identity_not_disabled in E0. congruence.
-    - intros _. split; [assumption|]. split; [assumption|]. eapply choose_identity. eassumption.
-    - intros [H1 [H2 H3]]. apply (choose_identity c (values_of ae) o) in H3. congruence.
+    rewrite <- disable_identity_iff.
+    destruct (clone_cases c ae o) as [[_ [Hd E]]|[[Hw [Hd E]]|[a' [E1 [E2 [E3 E]]]]]];
+      rewrite E; cbn [fst]; split.
+    - discriminate.
+    - intros [H _]. congruence.
+    - intros _. split; [assumption|]. destruct Hw as [Hw|[_ Hw]]; [auto|].
+      right. eapply choose_identity. eassumption.
+    - reflexivity.
+    - discriminate.
+    - intros [_ [H|H]]; [congruence|]. apply (choose_identity c (values_of ae) o) in H. congruence.
   Qed.
 
-  (** ** Histories: every reply of a page decodes to the page's body *)
+  (** ** Histories of one page *)
+  Notation handle_ := (handle parse_q parse_mime enc).
+  Notation handle_all_ := (handle_all parse_q parse_mime enc).
+  Notation handle_group_ := (handle_group parse_q parse_mime enc).
+  Notation serve_groups_ := (serve_groups parse_q parse_mime enc).
+
+  (** the entry of a page is the page: its body, headers and preference (after the floor) *)
+  Definition of_page (pg : page) (c : cresp) : Prop :=
+    cells_ok enc c /\ cr_body c = pg_body pg /\ cr_ctype c = pg_ctype pg /\ cr_hce c = pg_hce pg /\
+    cr_compress c = cr_compress (cresp_new (pg_body pg) (pg_ctype pg) (pg_hce pg) (pg_compress pg)).
+  Definition entry_ok (pg : page) (e : option cresp) : Prop :=
+    match e with None => True | Some c => of_page pg c end.
+
+  Lemma cresp_new_ok body ct hce compress : cells_ok enc (cresp_new body ct hce compress).
+  Proof. intros a b H. destruct a; discriminate. Qed.
+  Lemma cresp_new_of_page pg : of_page pg (cresp_new (pg_body pg) (pg_ctype pg) (pg_hce pg) (pg_compress pg)).
+  Proof. split; [apply cresp_new_ok|]. repeat split; reflexivity. Qed.
+
+  Lemma clone_of_page pg c ae o r c' : of_page pg c -> clone c ae o = (r, c') -> of_page pg c'.
+  Proof.
+    intros [Hok [Hb [Hct [Hh Hc]]]] H. destruct r as [l b ch|].
+    - destruct (label_matches_body_l _ _ _ _ _ _ _ Hok H) as [_ [_ [Hok' [Hb' [Hc' [Hct' Hh']]]]]].
+      split; [assumption|]. repeat split; congruence.
+    - apply clone_not_acceptable_state in H. subst c'. split; [assumption|]. auto.
+  Qed.
+
+  (** one step of a history: the reply comes from a [clone_preferred] on a response of the page *)
+  Lemma handle_step pg e rq r e' :
+    entry_ok pg e -> handle_ pg e rq = (r, e') ->
+    entry_ok pg e' /\ exists c o c', of_page pg c /\ clone c (snd rq) o = (r, c') /\
+                                   (was_memoised e rq r = true -> visible e (fst rq) = Some c).
+  Proof.
+    intros He H. destruct rq as [m ae]. unfold handle in H. cbn [fst snd]. unfold was_memoised. cbn [fst].
+    destruct (visible e m) as [c|] eqn:Hv.
+    - assert (Hc : of_page pg c).
+      { unfold visible in Hv. destruct (cache_method m); [|discriminate]. subst e. exact He. }
+      destruct (clone c ae (pg_cached pg)) as [r0 c0] eqn:Hcl. inversion H; subst.
+      split; [exact (clone_of_page _ _ _ _ _ _ Hc Hcl)|]. exists c, (pg_cached pg), c0. auto.
+    - destruct (clone _ ae _) as [r0 c0] eqn:Hcl. inversion H; subst.
+      pose proof (clone_of_page _ _ _ _ _ _ (cresp_new_of_page pg) Hcl) as Hc0.
+      split; [destruct (admitted pg m); [exact Hc0|exact He]|].
+      eexists _, _, c0. split; [apply cresp_new_of_page|]. split; [eassumption|].
+      destruct r; [destruct chosen|]; discriminate.
+  Qed.
+
+  (** a property of single replies that holds for every [clone_preferred] on a response of the page holds for
+      every reply of every history of the page *)
+  Section Lift.
+    Variable pg : page.
+    Variable Q : meth * option bytes -> reply -> Prop.
+    Hypothesis Q_clone : forall c rq o r c', of_page pg c -> clone c (snd rq) o = (r, c') -> Q rq r.
+
+    Lemma handle_all_lift reqs : forall e rs e',
+      entry_ok pg e -> handle_all_ pg e reqs = (rs, e') ->
+      Forall2 Q reqs (map fst rs) /\ entry_ok pg e'.
+    Proof.
+      induction reqs as [|rq rest IH]; intros e rs e' He H; cbn [handle_all] in H.
+      - inversion H; subst. split; [constructor|assumption].
+      - destruct (handle_ pg e rq) as [r e1] eqn:Hh.
+        destruct (handle_all_ pg e1 rest) as [rs1 e2] eqn:Ha.
+        inversion H; subst. destruct (handle_step _ _ _ _ _ He Hh) as [H1 [c [o [c' [Hc [Hcl _]]]]]].
+        destruct (IH _ _ _ H1 Ha) as [H3 H4]. split; [|assumption]. cbn [map fst]. constructor; [|assumption].
+        eapply Q_clone; eassumption.
+    Qed.
+
+    Lemma handle_group_lift e rq n rs e' :
+      entry_ok pg e -> handle_group_ pg e rq n = (rs, e') ->
+      Forall (Q rq) (map fst rs) /\ entry_ok pg e'.
+    Proof.
+      intros He H. unfold handle_group in H.
+      assert (Hall : handle_all_ pg e (repeat rq n) = (rs, e') -> Forall (Q rq) (map fst rs) /\ entry_ok pg e').
+      { intros Ha. destruct (handle_all_lift _ _ _ _ He Ha) as [H1 H2]. split; [|assumption].
+        clear - H1. remember (repeat rq n) as l eqn:El. revert n El.
+        induction H1 as [|x y l l' Hxy _ IH]; intros n El; [constructor|].
+        destruct n as [|n]; [discriminate|]. cbn [repeat] in El. inversion El; subst. constructor; [assumption|].
+        eapply IH. reflexivity. }
+      destruct e as [c|]; [exact (Hall H)|]. destruct n as [|[|n]]; [exact (Hall H)|exact (Hall H)|].
+      clear Hall. destruct (handle_ pg None rq) as [r e1] eqn:Hh. cbn [fst snd] in H. injection H as Hrs He'. subst rs e'.
+      destruct (handle_step pg None rq r e1 He Hh) as [H1 [c [o [c' [Hc [Hcl _]]]]]].
+      split; [|assumption]. apply Forall_forall. intros x Hx. apply in_map_iff in Hx as [[x0 m0] [Hx0 Hin]].
+      change ((r, false) :: (r, false) :: repeat (r, false) n) with (repeat (r, false) (S (S n))) in Hin.
+      apply repeat_spec in Hin. inversion Hin; subst. cbn [fst]. eapply Q_clone; eassumption.
+    Qed.
+
+    Lemma serve_groups_lift groups : forall e,
+      entry_ok pg e ->
+      Forall2 (fun g rs => Forall (Q (fst g)) (map fst rs)) groups (serve_groups_ pg e groups).
+    Proof.
+      induction groups as [|[rq n] rest IH]; intros e He; cbn [serve_groups]; [constructor|].
+      destruct (handle_group_ pg e rq n) as [rs e1] eqn:Hg.
+      destruct (handle_group_lift _ _ _ _ _ He Hg) as [H1 H2]. constructor; [exact H1|apply IH; assumption].
+    Qed.
+  End Lift.
+
+  (** every reply of every history is one the specification allows *)
+  Lemma may_compress_false pg c :
+    of_page pg c -> may_compress parse_mime pg = false -> cr_compress c = false \/ compressible parse_mime c = false.
+  Proof.
+    intros [_ [Hb [Hct [_ Hc]]]] H. unfold may_compress in H. unfold compressible, ctype_mime. rewrite Hct, Hc.
+    unfold cresp_new. cbn [cr_compress]. unfold page_ctype_ok in H.
+    destruct (Nat.ltb (length (pg_body pg)) floor); [auto|]. destruct (pg_compress pg); [|auto].
+    cbn [negb andb] in H. right. destruct (pg_ctype pg) as [h|]; [|reflexivity].
+    destruct (to_str_ok h); [|reflexivity]. destruct (parse_mime h); [assumption|reflexivity].
+  Qed.
+
+  Lemma alg_in_all a : alg_in a all_algs = true.
+  Proof. destruct a; reflexivity. Qed.
+  Lemma alg_in_filter a f l : alg_in a l = true -> f a = true -> alg_in a (filter f l) = true.
+  Proof.
+    unfold alg_in. rewrite !existsb_exists. intros [x [Hin Hx]] Hf.
+    assert (x = a) by (destruct a, x; try discriminate; reflexivity). subst x.
+    exists a. split; [apply filter_In; auto|assumption].
+  Qed.
+
+  Theorem clone_meets_spec_l pg c ae o r c' :
+    of_page pg c -> clone c ae o = (r, c') -> reply_allowed (spec_verdict parse_q parse_mime pg ae) r = true.
+  Proof.
+    intros Hc H. unfold spec_verdict. fold (values_of ae).
+    set (algs := if may_compress parse_mime pg then filter _ all_algs else []).
+    assert (Hnil : may_compress parse_mime pg = false -> algs = []) by (unfold algs; intros ->; reflexivity).
+    destruct (clone_cases c ae o) as [[_ [Hd E]]|[[Hw [Hd E]]|[a' [E1 [E2 [E3 E]]]]]]; rewrite E in H; inversion H; subst r c'; clear H.
+    - cbn [reply_allowed v_406 v_identity]. rewrite Hd. reflexivity.
+    - cbn [reply_allowed v_406]. rewrite Hd. cbn [andb].
+      assert (Hcases : cr_compress c = false \/ compressible parse_mime c = false \/ forall a, contains (values_of ae) (alg_name a) = false).
+      { destruct Hw as [Hw|[_ Hw]]; [auto|]. right. eapply choose_identity. eassumption. }
+      destruct (may_compress parse_mime pg) eqn:Hm.
+      + assert (Hno : forall a, contains (values_of ae) (alg_name a) = false).
+        { destruct Hcases as [Hx|[Hx|Hx]]; [| |assumption]; exfalso.
+          - destruct Hc as [_ [_ [_ [_ Hcc]]]]. unfold may_compress in Hm. unfold cresp_new in Hcc. cbn [cr_compress] in Hcc.
+            destruct (Nat.ltb _ _); [discriminate|]. cbn [negb andb] in Hm. destruct (pg_compress pg); [congruence|discriminate].
+          - destruct Hc as [_ [_ [Hct _]]]. unfold may_compress, page_ctype_ok in Hm. unfold compressible, ctype_mime in Hx. rewrite Hct in Hx.
+            apply andb_true_iff in Hm as [_ Hm]. destruct (pg_ctype pg) as [h|]; [|discriminate].
+            destruct (to_str_ok h); [|discriminate]. destruct (parse_mime h); congruence. }
+        unfold algs, all_algs. cbn [filter]. rewrite !Hno. reflexivity.
+      + rewrite (Hnil eq_refl). reflexivity.
+    - cbn [reply_allowed v_406 v_algs]. apply choose_alg in E3 as [Hcomp Hcont].
+      assert (Hm : may_compress parse_mime pg = true).
+      { destruct (may_compress parse_mime pg) eqn:Hm; [reflexivity|]. destruct (may_compress_false _ _ Hc Hm); congruence. }
+      assert (Hin : alg_in a' algs = true).
+      { unfold algs. rewrite Hm. apply alg_in_filter; [apply alg_in_all|assumption]. }
+      rewrite Hin. destruct algs; [discriminate|]. rewrite andb_false_r. reflexivity.
+  Qed.
+
+  Theorem serve_meets_spec_l pg groups :
+    Forall2 (fun g rs => Forall (fun r => reply_allowed (spec_verdict parse_q parse_mime pg (snd (fst g))) r = true) (map fst rs))
+            groups (serve_groups_ pg None groups).
+  Proof.
+    apply (serve_groups_lift pg (fun rq r => reply_allowed (spec_verdict parse_q parse_mime pg (snd rq)) r = true)); [|exact I].
+    intros c rq o r c' Hc H. eapply clone_meets_spec_l; eassumption.
+  Qed.
+
+  (** memoised bytes are reused: a filled cell is never changed, and a reply that uses the coding of a filled
+      cell carries exactly the bytes in it *)
+  Lemma clone_cell_stable c ae o r c' a b0 :
+    clone c ae o = (r, c') -> cell_get a c = Some b0 ->
+    cell_get a c' = Some b0 /\ forall l b, r = Sent l b (Alg a) -> b = b0.
+  Proof.
+    intros H Hg.
+    destruct (clone_cases c ae o) as [[_ [_ E]]|[[_ [_ E]]|[a' [_ [_ [_ E]]]]]]; rewrite E in H; inversion H; subst r c'; clear H.
+    - split; [assumption|]. intros l b Hs. discriminate.
+    - split; [assumption|]. intros l b Hs. discriminate.
+    - unfold get_alg. destruct (cell_get a' c) as [b1|] eqn:Hg'; cbn [fst snd].
+      + split; [assumption|]. intros l b Hs. inversion Hs; subst. congruence.
+      + split.
+        * rewrite cell_get_set. destruct (alg_eqb a a') eqn:Ea; [|assumption].
+          destruct a, a'; try discriminate; congruence.
+        * intros l b Hs. inversion Hs; subst. congruence.
+  Qed.
+
+  Theorem memoised_reply_l pg e rq r e' :
+    handle_ pg e rq = (r, e') -> was_memoised e rq r = true ->
+    exists c a l b, visible e (fst rq) = Some c /\ r = Sent l b (Alg a) /\ cell_get a c = Some b /\
+                    exists c', e' = Some c' /\ cell_get a c' = Some b.
+  Proof.
+    intros H Hw. destruct rq as [m ae]. unfold was_memoised in Hw. cbn [fst] in *. unfold handle in H.
+    destruct r as [l b [|a]|]; try discriminate.
+    destruct (visible e m) as [c|] eqn:Hv; [|discriminate].
+    destruct (cell_get a c) as [b0|] eqn:Hg; [|discriminate].
+    destruct (clone c ae (pg_cached pg)) as [r0 c0] eqn:Hcl. inversion H; subst.
+    destruct (clone_cell_stable _ _ _ _ _ _ _ Hcl Hg) as [H1 H2]. specialize (H2 _ _ eq_refl). subst b0.
+    exists c, a, l, b. repeat split; auto. exists c0. auto.
+  Qed.
+
+  (** ** every reply of every history decodes to the page's body *)
   Section Lossless.
     Variable dec : alg -> bytes -> bytes.
     Hypothesis dec_enc : forall a level b, dec a (enc a level b) = b.
     Hypothesis enc_nonempty : forall a level b, enc a level b <> [].
 
+    (** the handler's own content-encoding header survives on an empty body only (a HEAD-like response): it has
+        to be absent or identity there for the label to describe the body *)
+    Definition hce_harmless (pg : page) : Prop :=
+      pg_body pg <> [] \/ pg_hce pg = None \/ pg_hce pg = Some s_identity.
+
     Lemma decode_sent c ae o l b ch c' :
-      cells_ok enc c -> clone c ae o = (Sent l b ch, c') -> decode_label dec l b = Some (cr_body c).
+      cells_ok enc c -> (cr_body c <> [] \/ cr_hce c = None \/ cr_hce c = Some s_identity) ->
+      clone c ae o = (Sent l b ch, c') -> decode_label dec l b = Some (cr_body c).
     Proof.
-      intros Hok H. destruct (label_matches_body_l _ _ _ _ _ _ _ Hok H) as [Hl [Hb _]]. subst l.
+      intros Hok Hh H. destruct (label_matches_body_l _ _ _ _ _ _ _ Hok H) as [Hl [Hb _]]. subst l.
       destruct ch as [|a].
-      - destruct Hb as [-> _]. destruct (cr_body c); reflexivity.
+      - destruct Hb as [-> _]. destruct (cr_body c) eqn:Eb; [|reflexivity].
+        destruct Hh as [Hh|[->| ->]]; [congruence|reflexivity|reflexivity].
       - destruct Hb as [[lvl ->] _]. destruct (enc a lvl (cr_body c)) eqn:He; [exfalso; eapply enc_nonempty; eassumption|].
         rewrite <- He. destruct a; cbn; rewrite dec_enc; reflexivity.
     Qed.
 
-    Definition entry_ok (pg : page) (e : option cresp) : Prop :=
-      match e with None => True | Some c => cells_ok enc c /\ cr_body c = pg_body pg end.
     Definition reply_ok (pg : page) (r : reply) : Prop :=
       r = NotAcceptable \/ exists l b ch, r = Sent l b ch /\ decode_label dec l b = Some (pg_body pg).
 
-    Lemma cresp_new_ok body ct compress : cells_ok enc (cresp_new body ct compress).
-    Proof. intros a b H. destruct a; discriminate. Qed.
-
-    Lemma clone_reply_ok pg c ae o r c' :
-      cells_ok enc c -> cr_body c = pg_body pg -> clone c ae o = (r, c') ->
-      reply_ok pg r /\ cells_ok enc c' /\ cr_body c' = pg_body pg.
+    Theorem lossless_l pg groups :
+      hce_harmless pg ->
+      Forall (fun rs => Forall (reply_ok pg) (map fst rs)) (serve_groups_ pg None groups).
     Proof.
-      intros Hok Hb H. destruct r as [l b ch|].
-      - pose proof (decode_sent _ _ _ _ _ _ _ Hok H) as Hd.
-        destruct (label_matches_body_l _ _ _ _ _ _ _ Hok H) as [_ [_ [Hok' [Hb' _]]]].
-        split; [right; exists l, b, ch; split; [reflexivity|congruence]|]. split; [assumption|congruence].
-      - apply clone_not_acceptable_state in H. subst c'. split; [left; reflexivity|auto].
-    Qed.
-
-    Lemma handle_ok pg e ae r e' :
-      entry_ok pg e -> handle parse_q parse_mime enc pg e ae = (r, e') -> reply_ok pg r /\ entry_ok pg e'.
-    Proof.
-      intros He H. unfold handle in H. destruct e as [c|].
-      - destruct He as [Hok Hb]. destruct (clone c ae (pg_cached pg)) as [r0 c0] eqn:Hc.
-        inversion H; subst. destruct (clone_reply_ok pg _ _ _ _ _ Hok Hb Hc) as [H1 [H2 H3]].
-        split; [assumption|split; assumption].
-      - destruct (clone _ ae _) as [r0 c0] eqn:Hc. inversion H; subst.
-        destruct (clone_reply_ok pg _ _ _ _ _ (cresp_new_ok _ _ _) eq_refl Hc) as [H1 [H2 H3]].
-        split; [assumption|]. destruct (pg_cache pg); cbn; auto.
-    Qed.
-
-    Lemma handle_all_ok pg reqs : forall e rs e',
-      entry_ok pg e -> handle_all parse_q parse_mime enc pg e reqs = (rs, e') ->
-      Forall (reply_ok pg) rs /\ entry_ok pg e'.
-    Proof.
-      induction reqs as [|ae rest IH]; intros e rs e' He H; cbn [handle_all] in H.
-      - inversion H; subst. split; [constructor|assumption].
-      - destruct (handle parse_q parse_mime enc pg e ae) as [r e1] eqn:Hh.
-        destruct (handle_all parse_q parse_mime enc pg e1 rest) as [rs1 e2] eqn:Ha.
-        inversion H; subst. destruct (handle_ok _ _ _ _ _ He Hh) as [H1 H2].
-        destruct (IH _ _ _ H2 Ha) as [H3 H4]. split; [constructor; assumption|assumption].
-    Qed.
-
-    Theorem lossless_l pg reqs :
-      Forall (reply_ok pg) (serve parse_q parse_mime enc pg None reqs).
-    Proof.
-      unfold serve. destruct (handle_all parse_q parse_mime enc pg None reqs) as [rs e] eqn:H.
-      cbn [fst]. eapply handle_all_ok; [|eassumption]. exact I.
+      intros Hh.
+      pose proof (serve_groups_lift pg (fun _ r => reply_ok pg r)) as L.
+      assert (HQ : forall c (rq : meth * option bytes) o r c', of_page pg c -> clone c (snd rq) o = (r, c') -> reply_ok pg r).
+      { intros c rq o r c' [Hok [Hb [_ [Hhc _]]]] H. destruct r as [l b ch|]; [|left; reflexivity].
+        right. exists l, b, ch. split; [reflexivity|]. rewrite <- Hb. eapply decode_sent; try eassumption.
+        rewrite Hb, Hhc. exact Hh. }
+      specialize (L HQ groups None I). clear - L.
+      induction L as [|g rs gs rss H _ IH]; constructor; assumption.
     Qed.
   End Lossless.
+
 End NegP.
 
 (* ------------------------------------------------------------------------------------ *)
@@ -363,6 +568,9 @@ Section Memo.
   Variable n : nat.
   Hypothesis vals_ok : forall i, (i < n)%nat -> P (nth i vals []).
 
+  (** task holds the permit *)
+  Definition holds (p : pc) : bool := match p with PComputing | PComputed _ => true | _ => false end.
+
   Definition pc_ok (cell : option bytes) (p : pc) : Prop :=
     match p with
     | PStart | PComputing => True
@@ -373,38 +581,115 @@ Section Memo.
   Definition memo_inv (st : mstate) : Prop :=
     (forall b, m_cell st = Some b -> P b) /\
     (forall i p, nth_error (m_pcs st) i = Some p -> pc_ok (m_cell st) p) /\
-    length (m_pcs st) = n.
+    length (m_pcs st) = n /\
+    (* the permit: held by exactly the one task that is compressing, and only while the cell is empty *)
+    (forall i p, nth_error (m_pcs st) i = Some p -> holds p = true -> m_lock st = true /\ m_cell st = None) /\
+    (forall i j p q, nth_error (m_pcs st) i = Some p -> nth_error (m_pcs st) j = Some q ->
+                     holds p = true -> holds q = true -> i = j) /\
+    (m_lock st = true -> exists i p, nth_error (m_pcs st) i = Some p /\ holds p = true).
 
   Lemma pc_ok_mono cell cell' p : (cell <> None -> cell' <> None) -> pc_ok cell p -> pc_ok cell' p.
   Proof. destruct p; cbn; auto. Qed.
 
-  Lemma inv_set st i p cell' :
-    memo_inv st -> (i < n)%nat ->
-    (forall b, cell' = Some b -> P b) -> (m_cell st <> None -> cell' <> None) -> pc_ok cell' p ->
-    memo_inv (mkM cell' (set_nth i p (m_pcs st))).
+  Lemma nth_set_cases {A} i j (v : A) l q :
+    nth_error (set_nth i v l) j = Some q -> (i < length l)%nat ->
+    (i = j /\ q = v) \/ (i <> j /\ nth_error l j = Some q).
   Proof.
-    intros [H1 [H2 H3]] Hi Hc Hm Hp. split; [exact Hc|]. split; cbn [m_cell m_pcs].
-    - intros j q Hj. destruct (Nat.eq_dec i j) as [<-|Hne].
-      + rewrite nth_error_set_nth_eq in Hj by lia. inversion Hj; subst. assumption.
-      + rewrite nth_error_set_nth_neq in Hj by assumption. eapply pc_ok_mono; [exact Hm|]. eapply H2; eassumption.
-    - rewrite set_nth_length. assumption.
+    intros H Hi. destruct (Nat.eq_dec i j) as [<-|Hne].
+    - rewrite nth_error_set_nth_eq in H by assumption. inversion H. auto.
+    - rewrite nth_error_set_nth_neq in H by assumption. auto.
   Qed.
 
   Lemma mstep_inv st i st' : memo_inv st -> mstep vals st i = Some st' -> memo_inv st'.
   Proof.
-    intros Hinv Hs. pose proof Hinv as [H1 [H2 H3]]. unfold mstep in Hs.
+    intros Hinv Hs. pose proof Hinv as [H1 [H2 [H3 [H4 [H5 H6]]]]]. unfold mstep in Hs.
     destruct (nth_error (m_pcs st) i) as [p|] eqn:Hp; [|discriminate].
-    assert (Hi : (i < n)%nat) by (rewrite <- H3; apply nth_error_Some; congruence).
+    assert (Hi : (i < length (m_pcs st))%nat) by (apply nth_error_Some; congruence).
     pose proof (H2 _ _ Hp) as Hok.
-    destruct p as [| |buf| |r]; inversion Hs; subst; clear Hs.
-    - apply inv_set; auto. destruct (m_cell st); cbn; try discriminate; exact I.
-    - apply inv_set; auto. cbn. apply vals_ok. assumption.
-    - cbn in Hok. apply inv_set; auto.
-      + intros b Hb. destruct (m_cell st) as [b0|] eqn:Hc; inversion Hb; subst; auto.
-      + intros _. destruct (m_cell st); discriminate.
-      + cbn. destruct (m_cell st); discriminate.
-    - cbn in Hok. apply inv_set; auto. cbn. destruct (m_cell st) as [b|] eqn:Hc; [|congruence].
-      exists b. split; [reflexivity|]. apply H1. reflexivity.
+    destruct p as [| |buf| |r].
+    - (* PStart *)
+      destruct (m_cell st) as [b0|] eqn:Hc.
+      + (* fast path *)
+        inversion Hs; subst st'; clear Hs. unfold memo_inv; cbn [m_cell m_lock m_pcs]. rewrite set_nth_length.
+        split; [exact H1|]. split.
+        { intros j q Hq. apply nth_set_cases in Hq as [[<- ->]|[Hne Hq]]; [|exact (H2 _ _ Hq)|assumption].
+          cbn. discriminate. }
+        split; [assumption|]. split.
+        { intros j q Hq Hh. apply nth_set_cases in Hq as [[<- ->]|[Hne Hq]]; [discriminate| |assumption].
+          destruct (H4 _ _ Hq Hh) as [_ Hx]. discriminate. }
+        split.
+        { intros j k q q' Hq Hq' Hh Hh'.
+          apply nth_set_cases in Hq as [[<- ->]|[Hne Hq]]; [discriminate| |assumption].
+          apply nth_set_cases in Hq' as [[<- ->]|[Hne' Hq']]; [discriminate| |assumption].
+          eapply H5; eassumption. }
+        { intros Hl. destruct (H6 Hl) as [j [q [Hq Hh]]]. destruct (H4 _ _ Hq Hh) as [_ Hx]. discriminate. }
+      + destruct (m_lock st) eqn:Hl; [discriminate|].
+        inversion Hs; subst st'; clear Hs. unfold memo_inv; cbn [m_cell m_lock m_pcs]. rewrite set_nth_length.
+        assert (Hnone : forall j q, nth_error (m_pcs st) j = Some q -> holds q = false).
+        { intros j q Hq. destruct (holds q) eqn:Hh; [|reflexivity]. destruct (H4 _ _ Hq Hh). discriminate. }
+        split; [exact H1|]. split.
+        { intros j q Hq. apply nth_set_cases in Hq as [[<- ->]|[Hne Hq]]; [exact I|exact (H2 _ _ Hq)|assumption]. }
+        split; [assumption|]. split.
+        { intros j q Hq Hh. auto. }
+        split.
+        { intros j k q q' Hq Hq' Hh Hh'.
+          apply nth_set_cases in Hq as [[<- ->]|[Hne Hq]]; [| |assumption];
+            apply nth_set_cases in Hq' as [[<- ->]|[Hne' Hq']]; try assumption; try reflexivity.
+          - rewrite (Hnone _ _ Hq') in Hh'. discriminate.
+          - rewrite (Hnone _ _ Hq) in Hh. discriminate.
+          - rewrite (Hnone _ _ Hq) in Hh. discriminate. }
+        { intros _. exists i, PComputing. split; [apply nth_error_set_nth_eq; assumption|reflexivity]. }
+    - (* PComputing *)
+      inversion Hs; subst st'; clear Hs. unfold memo_inv; cbn [m_cell m_lock m_pcs]. rewrite set_nth_length.
+      destruct (H4 _ _ Hp eq_refl) as [Hl Hc].
+      split; [assumption|]. split.
+      { intros j q Hq. apply nth_set_cases in Hq as [[<- ->]|[Hne Hq]]; [| |assumption].
+        - cbn. apply vals_ok. rewrite <- H3. assumption.
+        - apply H2 with j. assumption. }
+      split; [assumption|]. split.
+      { intros j q Hq Hh. auto. }
+      split.
+      { intros j k q q' Hq Hq' Hh Hh'.
+        apply nth_set_cases in Hq as [[<- ->]|[Hne Hq]]; [| |assumption];
+          apply nth_set_cases in Hq' as [[<- ->]|[Hne' Hq']]; try assumption; try reflexivity.
+        - eapply H5; [exact Hp|exact Hq'|reflexivity|assumption].
+        - eapply H5; [exact Hq|exact Hp|assumption|reflexivity].
+        - eapply H5; eassumption. }
+      { intros _. exists i, (PComputed (nth i vals [])). split; [apply nth_error_set_nth_eq; assumption|reflexivity]. }
+    - (* PComputed: the value is stored, the permit given up *)
+      inversion Hs; subst st'; clear Hs. unfold memo_inv; cbn [m_cell m_lock m_pcs]. rewrite set_nth_length.
+      cbn in Hok.
+      assert (Hnone : forall j q, j <> i -> nth_error (m_pcs st) j = Some q -> holds q = false).
+      { intros j q Hne Hq. destruct (holds q) eqn:Hh; [|reflexivity]. exfalso. apply Hne.
+        eapply H5; [exact Hq|exact Hp|assumption|reflexivity]. }
+      split; [intros b Hb; inversion Hb; subst; assumption|]. split.
+      { intros j q Hq. apply nth_set_cases in Hq as [[<- ->]|[Hne Hq]]; [cbn; discriminate| |assumption].
+        eapply pc_ok_mono; [|eapply H2; eassumption]. intros _. discriminate. }
+      split; [assumption|]. split.
+      { intros j q Hq Hh. apply nth_set_cases in Hq as [[<- ->]|[Hne Hq]]; [discriminate| |assumption].
+        rewrite (Hnone j q) in Hh by auto. discriminate. }
+      split.
+      { intros j k q q' Hq Hq' Hh Hh'.
+        apply nth_set_cases in Hq as [[<- ->]|[Hne Hq]]; [discriminate| |assumption].
+        rewrite (Hnone j q) in Hh by auto. discriminate. }
+      { discriminate. }
+    - (* PRet *)
+      inversion Hs; subst st'; clear Hs. unfold memo_inv; cbn [m_cell m_lock m_pcs]. rewrite set_nth_length.
+      cbn in Hok.
+      split; [assumption|]. split.
+      { intros j q Hq. apply nth_set_cases in Hq as [[<- ->]|[Hne Hq]]; [| |assumption].
+        - cbn. destruct (m_cell st) as [b|] eqn:Hc; [|congruence]. exists b. auto.
+        - eapply H2; eassumption. }
+      split; [assumption|]. split.
+      { intros j q Hq Hh. apply nth_set_cases in Hq as [[<- ->]|[Hne Hq]]; [discriminate| |assumption]. eauto. }
+      split.
+      { intros j k q q' Hq Hq' Hh Hh'.
+        apply nth_set_cases in Hq as [[<- ->]|[Hne Hq]]; [discriminate| |assumption].
+        apply nth_set_cases in Hq' as [[<- ->]|[Hne' Hq']]; [discriminate| |assumption].
+        eapply H5; eassumption. }
+      { intros Hl. destruct (H6 Hl) as [j [q [Hq Hh]]]. exists j, q. split; [|assumption].
+        rewrite nth_error_set_nth_neq; [assumption|]. intros <-. rewrite Hp in Hq. inversion Hq; subst. discriminate. }
+    - discriminate.
   Qed.
 
   Lemma mrun_inv sched : forall st, memo_inv st -> memo_inv (mrun vals st sched).
@@ -415,9 +700,12 @@ Section Memo.
 
   Lemma minit_inv cell : (forall b, cell = Some b -> P b) -> memo_inv (minit cell n).
   Proof.
-    intros H. split; [exact H|]. split; cbn [minit m_pcs m_cell].
-    - intros i p Hp. apply nth_error_In in Hp. apply repeat_spec in Hp. subst. exact I.
-    - apply repeat_length.
+    intros H. unfold memo_inv, minit; cbn [m_pcs m_cell m_lock].
+    assert (Hall : forall i p, nth_error (repeat PStart n) i = Some p -> p = PStart).
+    { intros i p Hp. apply nth_error_In in Hp. apply repeat_spec in Hp. assumption. }
+    split; [exact H|]. split; [intros i p Hp; rewrite (Hall _ _ Hp); exact I|].
+    split; [apply repeat_length|]. split; [intros i p Hp Hh; rewrite (Hall _ _ Hp) in Hh; discriminate|].
+    split; [intros i j p q Hp _ Hh; rewrite (Hall _ _ Hp) in Hh; discriminate|discriminate].
   Qed.
 
   Theorem memo_invariant_l cell sched :
@@ -429,71 +717,94 @@ Section Memo.
     intros H st. destruct (mrun_inv sched _ (minit_inv cell H)) as [H1 [H2 _]].
     split; [exact H1|]. intros i r Hr. apply (H2 _ _ Hr).
   Qed.
+
+  (** written once: under the invariant a filled cell never changes *)
+  Lemma mstep_cell_stable st i st' b : memo_inv st -> m_cell st = Some b -> mstep vals st i = Some st' -> m_cell st' = Some b.
+  Proof.
+    intros [_ [_ [_ [H4 _]]]] Hc Hs. unfold mstep in Hs.
+    destruct (nth_error (m_pcs st) i) as [[| |buf| |r]|] eqn:Hp; try discriminate.
+    - rewrite Hc in Hs. inversion Hs; subst st'; reflexivity.
+    - inversion Hs; subst st'; exact Hc.
+    - destruct (H4 _ _ Hp eq_refl) as [_ Hx]. congruence.
+    - inversion Hs; subst st'; exact Hc.
+  Qed.
+  Lemma mrun_cell_stable sched : forall st b, memo_inv st -> m_cell st = Some b -> m_cell (mrun vals st sched) = Some b.
+  Proof.
+    induction sched as [|i r IH]; intros st b Hinv H; cbn [mrun]; [assumption|].
+    destruct (mstep vals st i) as [st'|] eqn:Hs; [|apply IH; assumption].
+    apply IH; [eapply mstep_inv; eassumption|eapply mstep_cell_stable; eassumption].
+  Qed.
+  Lemma mrun_app sched1 : forall sched2 st, mrun vals st (sched1 ++ sched2) = mrun vals (mrun vals st sched1) sched2.
+  Proof. induction sched1 as [|i r IH]; intros sched2 st; cbn [mrun app]; [reflexivity|apply IH]. Qed.
+
+  (** never stuck: some task that has not returned can move *)
+  Lemma memo_progress_l st :
+    memo_inv st -> forallb pc_done (m_pcs st) = false -> exists i st', mstep vals st i = Some st'.
+  Proof.
+    intros [_ [_ [_ [H4 [_ H6]]]]] Hnd.
+    destruct (m_lock st) eqn:Hl.
+    - destruct (H6 eq_refl) as [i [p [Hp Hh]]]. exists i. unfold mstep. rewrite Hp.
+      destruct p; try discriminate; eexists; reflexivity.
+    - assert (Hex : exists i p, nth_error (m_pcs st) i = Some p /\ pc_done p = false).
+      { clear - Hnd. induction (m_pcs st) as [|q l IH]; [discriminate|]. cbn [forallb] in Hnd.
+        destruct (pc_done q) eqn:Hq.
+        - cbn [andb] in Hnd. destruct (IH Hnd) as [i [p [Hp Hd]]]. exists (S i), p. auto.
+        - exists O, q. auto. }
+      destruct Hex as [i [p [Hp Hd]]]. exists i. unfold mstep. rewrite Hp, Hl.
+      destruct p; try discriminate; try (eexists; reflexivity).
+      destruct (m_cell st); eexists; reflexivity.
+  Qed.
 End Memo.
 
-(** written once: a filled cell never changes *)
-Lemma mstep_cell_stable vals st i st' b : m_cell st = Some b -> mstep vals st i = Some st' -> m_cell st' = Some b.
+Theorem memo_write_once_l vals n cell sched1 sched2 b :
+  m_cell (mrun vals (minit cell n) sched1) = Some b -> m_cell (mrun vals (minit cell n) (sched1 ++ sched2)) = Some b.
 Proof.
-  intros Hc Hs. unfold mstep in Hs. destruct (nth_error (m_pcs st) i) as [[| |buf| |r]|]; inversion Hs; subst; cbn [m_cell]; auto.
-  rewrite Hc. reflexivity.
-Qed.
-Theorem memo_write_once_l vals sched : forall st b, m_cell st = Some b -> m_cell (mrun vals st sched) = Some b.
-Proof.
-  induction sched as [|i r IH]; intros st b H; cbn [mrun]; [assumption|].
-  apply IH. destruct (mstep vals st i) as [st'|] eqn:Hs; [eapply mstep_cell_stable; eassumption|assumption].
+  intros H. rewrite mrun_app.
+  assert (Hinv : memo_inv (fun _ => True) n (mrun vals (minit cell n) sched1)).
+  { apply mrun_inv; [intros; exact I|]. apply minit_inv. intros; exact I. }
+  exact (mrun_cell_stable (fun _ => True) vals n (fun _ _ => I) sched2 _ _ Hinv H).
 Qed.
 
-(** progress: no task waits for another one; four turns complete a task *)
-Definition steps_left (p : pc) : nat :=
-  match p with PStart => 4 | PComputing => 3 | PComputed _ => 2 | PRet => 1 | PDone _ => 0 end.
-Definition left_of (st : mstate) (i : nat) : nat :=
-  match nth_error (m_pcs st) i with Some p => steps_left p | None => 0 end.
-
-Lemma mstep_left vals st j st' i :
-  mstep vals st j = Some st' ->
-  if Nat.eq_dec j i then (left_of st' i < left_of st i)%nat else left_of st' i = left_of st i.
+(** every step that is taken uses up one of the at most 4 steps of its task *)
+Lemma total_left_set_nth i p l q :
+  nth_error l i = Some q ->
+  (fold_right (fun p acc => (steps_left p + acc)%nat) O (set_nth i p l) + steps_left q =
+   fold_right (fun p acc => (steps_left p + acc)%nat) O l + steps_left p)%nat.
 Proof.
-  intros Hs. unfold mstep in Hs. destruct (nth_error (m_pcs st) j) as [p|] eqn:Hp; [|discriminate].
-  assert (Hj : (j < length (m_pcs st))%nat) by (apply nth_error_Some; congruence).
-  destruct (Nat.eq_dec j i) as [<-|Hne]; unfold left_of.
-  - rewrite Hp. destruct p as [| |buf| |r]; inversion Hs; subst; cbn [m_pcs];
-      rewrite nth_error_set_nth_eq by assumption; cbn [steps_left]; try lia.
-    destruct (m_cell st); cbn [steps_left]; lia.
-  - destruct p as [| |buf| |r]; inversion Hs; subst; cbn [m_pcs];
-      rewrite nth_error_set_nth_neq by assumption; reflexivity.
+  revert i; induction l as [|x l IH]; intros [|i] H; cbn [nth_error] in H; try discriminate.
+  - inversion H; subst. cbn [set_nth fold_right]. lia.
+  - cbn [set_nth fold_right]. specialize (IH _ H). lia.
 Qed.
-Lemma mstep_none_left vals st i : mstep vals st i = None -> left_of st i = 0%nat.
+Theorem memo_step_decreases_l vals st i st' : mstep vals st i = Some st' -> (total_left st' < total_left st)%nat.
 Proof.
-  unfold mstep, left_of. destruct (nth_error (m_pcs st) i) as [[| |buf| |r]|]; try discriminate; reflexivity.
-Qed.
-
-Lemma mrun_left vals sched : forall st i,
-  (left_of (mrun vals st sched) i <= left_of st i - count_occ Nat.eq_dec sched i)%nat.
-Proof.
-  induction sched as [|j r IH]; intros st i; cbn [mrun count_occ]; [lia|].
-  destruct (mstep vals st j) as [st'|] eqn:Hs.
-  - pose proof (mstep_left _ _ _ _ i Hs) as Hl. specialize (IH st' i).
-    destruct (Nat.eq_dec j i); lia.
-  - specialize (IH st i). destruct (Nat.eq_dec j i) as [<-|]; [|assumption].
-    apply mstep_none_left in Hs. lia.
+  unfold mstep, total_left. destruct (nth_error (m_pcs st) i) as [p|] eqn:Hp; [|discriminate].
+  destruct p as [| |buf| |r]; intros Hs.
+  - destruct (m_cell st).
+    + inversion Hs; subst; cbn [m_pcs]. pose proof (total_left_set_nth i PRet _ _ Hp). cbn [steps_left] in *. lia.
+    + destruct (m_lock st); [discriminate|]. inversion Hs; subst; cbn [m_pcs].
+      pose proof (total_left_set_nth i PComputing _ _ Hp). cbn [steps_left] in *. lia.
+  - inversion Hs; subst; cbn [m_pcs]. pose proof (total_left_set_nth i (PComputed (nth i vals [])) _ _ Hp). cbn [steps_left] in *. lia.
+  - inversion Hs; subst; cbn [m_pcs]. pose proof (total_left_set_nth i PRet _ _ Hp). cbn [steps_left] in *. lia.
+  - inversion Hs; subst; cbn [m_pcs].
+    pose proof (total_left_set_nth i (PDone (match m_cell st with Some b => Ok b | None => Panic end)) _ _ Hp). cbn [steps_left] in *. lia.
+  - discriminate.
 Qed.
 
+(** no deadlock and termination: after any schedule either every task has returned, or some task can move — and
+    every move uses up one of the at most 4n steps there are *)
 Theorem memo_completes_l vals cell n sched :
-  (forall i, (i < n)%nat -> (4 <= count_occ Nat.eq_dec sched i)%nat) ->
-  forallb pc_done (m_pcs (mrun vals (minit cell n) sched)) = true.
+  let st := mrun vals (minit cell n) sched in
+  (total_left (minit cell n) = 4 * n)%nat /\
+  (forallb pc_done (m_pcs st) = true \/
+   exists i st', mstep vals st i = Some st' /\ (total_left st' < total_left st)%nat).
 Proof.
-  intros Hfair. apply forallb_forall. intros p Hin. apply In_nth_error in Hin as [i Hi].
-  assert (Hlen : forall s st, length (m_pcs (mrun vals st s)) = length (m_pcs st)).
-  { induction s as [|j r IH]; intros st; cbn [mrun]; [reflexivity|]. rewrite IH.
-    destruct (mstep vals st j) as [st'|] eqn:Hs; [|reflexivity]. unfold mstep in Hs.
-    destruct (nth_error (m_pcs st) j) as [[| |buf| |r0]|]; inversion Hs; subst; cbn [m_pcs]; apply set_nth_length. }
-  assert (Hlt : (i < n)%nat).
-  { assert (i < length (m_pcs (mrun vals (minit cell n) sched)))%nat by (apply nth_error_Some; congruence).
-    rewrite Hlen in H. cbn [minit m_pcs] in H. rewrite repeat_length in H. assumption. }
-  pose proof (mrun_left vals sched (minit cell n) i) as Hl. specialize (Hfair i Hlt).
-  assert (H0 : left_of (minit cell n) i = 4%nat).
-  { unfold left_of, minit. cbn [m_pcs]. destruct (nth_error (repeat PStart n) i) as [q|] eqn:Hq.
-    - apply nth_error_In, repeat_spec in Hq. subst. reflexivity.
-    - apply nth_error_None in Hq. rewrite repeat_length in Hq. lia. }
-  unfold left_of in Hl at 1. rewrite Hi in Hl. destruct p; cbn [steps_left] in Hl; try lia. reflexivity.
+  intros st. split.
+  { unfold total_left, minit; cbn [m_pcs]. clear st. induction n as [|k IH]; [reflexivity|].
+    change (repeat PStart (S k)) with (PStart :: repeat PStart k). cbn [fold_right steps_left].
+    rewrite IH. lia. }
+  destruct (forallb pc_done (m_pcs st)) eqn:Hd; [left; reflexivity|right].
+  assert (Hinv : memo_inv (fun _ => True) n st).
+  { apply mrun_inv; [intros; exact I|]. apply minit_inv. intros; exact I. }
+  destruct (memo_progress_l (fun _ => True) vals n st Hinv Hd) as [i [st' Hs]].
+  exists i, st'. split; [assumption|]. eapply memo_step_decreases_l. eassumption.
 Qed.
